@@ -293,27 +293,30 @@ theorem route_tail_good {cfg : Config} {d : Option (Bytes × Nat)} {x : Ctx} {p 
       split
       · exact ⟨h.of_peers_eq rfl, ⟨[_], rfl, by simp [J]⟩, fun _ hj => idFirst_errorFromRequest hj,
           Or.inl (AuthSame.of_eq rfl rfl)⟩
-      · generalize hsend : send _ e.owner _ = r
-        have hst : ∃ f : Peer → List Route, r.1.st.peers = updatePeer x.st.peers e.owner (fun q => { q with routes := f q }) ∧
-            r.1.st.users = x.st.users := by
-          rw [← hsend, send_st]; exact ⟨_, rfl, rfl⟩
-        obtain ⟨fr, hst⟩ := hst
-        have hout := OutExt.send (Q := J cfg x.st d) _ e.owner _
-          (fun ok => J_idFirst (idFirst_routedMessage _ path isState _) ok)
-        rw [hsend] at hout
+      · generalize hm' : routedMessage _ path isState value = m
+        have hm : idFirst m = true := hm' ▸ idFirst_routedMessage _ path isState value
+        generalize hX : emit _ (Obs.timerArm _ tns) = X
+        have hXst : ∃ f : Peer → List Route, X.st.peers = updatePeer x.st.peers e.owner (fun q => { q with routes := f q }) ∧
+            X.st.users = x.st.users := by
+          rw [← hX]; exact ⟨_, rfl, rfl⟩
+        have hXout : OutExt (J cfg x.st d) x X := by
+          rw [← hX]; exact ⟨[_], rfl, by simp [J]⟩
+        generalize hsend : send X e.owner m = r
+        have hst : r.1.st = X.st := by rw [← hsend, send_st]
+        have hout : OutExt (J cfg x.st d) X r.1 := by
+          rw [← hsend]; exact OutExt.send X _ _ (fun ok => J_idFirst hm ok)
+        obtain ⟨fr, hp1, hu1⟩ := hXst
         obtain ⟨x2, ok⟩ := r
-        have hout0 : OutExt (J cfg x.st d) x x2 := by
-          refine OutExt.trans ⟨[_], rfl, ?_⟩ hout
-          simp [J]
+        simp only at hst hout ⊢
+        have hinv2 : FInv cfg x2.st := h.routes e.owner fr (by rw [hst]; exact hp1)
+        have hauth2 : AuthSame x.st x2.st := AuthSame.routes e.owner fr (by rw [hst]; exact hu1) (by rw [hst]; exact hp1)
         cases ok
         · simp only [Bool.false_eq_true, if_false]
-          have hinv2 : FInv cfg x2.st := h.routes e.owner _ hst.1
-          refine ⟨hinv2.removeRoute e.owner _ rfl, hout0.trans ⟨[_], rfl, by simp [J]⟩,
+          refine ⟨hinv2.removeRoute e.owner _ rfl, (hXout.trans hout).trans ⟨[_], rfl, by simp [J]⟩,
             fun _ hj => idFirst_errorFromRequest hj, Or.inl ?_⟩
-          exact (AuthSame.routes e.owner _ hst.2 hst.1).trans (AuthSame.routes e.owner _ rfl rfl)
+          exact hauth2.trans (AuthSame.routes e.owner _ rfl rfl)
         · simp only [if_true]
-          exact ⟨h.routes e.owner _ hst.1, hout0, fun _ hj => by cases hj,
-            Or.inl (AuthSame.routes e.owner _ hst.2 hst.1)⟩
+          exact ⟨hinv2, hXout.trans hout, (fun _ hj => by cases hj), Or.inl hauth2⟩
 
 theorem setOrCall_good {cfg : Config} {d : Option (Bytes × Nat)} {x : Ctx} {p : Peer} {req : Json} {isState : Bool}
     (h : FInv cfg x.st) : Good cfg d p.conn req x (setOrCall cfg x p req isState) := by
